@@ -43,10 +43,17 @@ theorem chunked {D : Nat → Bytes → Bytes} {rd : Nat → Nat → Bytes} {size
     readDec D gs rd size 0 off (a + b) = readDec D gs rd size 0 off a ++ readDec D gs rd size 0 (off + a) b := by
   simp only [view_eq_plain E, slice_add]
 
-/-- The encrypted sectors are exactly the gaps between consecutive plain regions. -/
+/-- The encrypted sectors are exactly the sectors strictly between consecutive plain regions: after
+    the LAST sector of one (its `stop`, inclusive) and before the first of the next. -/
 theorem gaps_spec (a b : Region) (rest : List Region) (s : Nat) :
-    inGap (gaps (a :: b :: rest)) s = ((a.stop ≤ s && s < b.start) || inGap (gaps (b :: rest)) s) := by
-  simp [gaps, inGap]
+    inGap (gaps (a :: b :: rest)) s = ((a.stop < s && s < b.start) || inGap (gaps (b :: rest)) s) := by
+  simp [gaps, inGap, Nat.succ_le_iff]
+
+/-- in particular the last sector of a plain region is plain, whatever follows it in the table
+    (it used to be decrypted as if it belonged to the next encrypted region) -/
+theorem last_plain_sector_is_plain (a b : Region) : inGap (gaps [a, b]) a.stop = false := by
+  simp only [gaps, inGap, List.any_cons, List.any_nil, Bool.or_false, Bool.and_eq_false_iff, decide_eq_false_iff_not]
+  left; omega
 
 /-- Region tables are accepted exactly when they pass the documented sanity checks … -/
 theorem accept_iff_valid (rd : Nat → Nat → Bytes) (regs : List Region) (h : decodeTable rd = some regs) :
@@ -55,11 +62,11 @@ theorem accept_iff_valid (rd : Nat → Nat → Bytes) (regs : List Region) (h : 
   rw [h]
   cases hv : validRegs regs <;> simp [hv]
 
-/-- … which are: at least two and at most 255 regions, the first starting at sector 0, every
-    region non-empty, and no region starting before the previous one ends. -/
+/-- … which are: at least two and at most 255 regions, the first starting at sector 0, no region
+    ending before it starts, and every region starting after the last sector of the previous one. -/
 theorem valid_spec (r0 : Region) (rest : List Region) :
     validRegs (r0 :: rest) = true ↔
-      (1 ≤ rest.length ∧ rest.length + 1 ≤ 255 ∧ r0.start = 0 ∧ bordersOk (r0 :: rest) 0 = true) := by
+      (1 ≤ rest.length ∧ rest.length + 1 ≤ 255 ∧ r0.start = 0 ∧ bordersOk (r0 :: rest) none = true) := by
   have : maxRegions = 255 := rfl
   simp only [validRegs, this, List.length_cons, List.head?_cons, Option.map_some, Bool.and_eq_true, decide_eq_true_eq, beq_iff_eq,
     Option.some.injEq]
@@ -67,18 +74,33 @@ theorem valid_spec (r0 : Region) (rest : List Region) :
   · rintro ⟨⟨⟨h1, h2⟩, h3⟩, h4⟩; exact ⟨by omega, by omega, h3, h4⟩
   · rintro ⟨h1, h2, h3, h4⟩; exact ⟨⟨⟨by omega, by omega⟩, h3⟩, h4⟩
 
+theorem borders_first (r : Region) (rest : List Region) :
+    bordersOk (r :: rest) none = true ↔ (r.start ≤ r.stop ∧ bordersOk rest (some r.stop) = true) := by
+  simp only [bordersOk]
+  split
+  · constructor
+    · intro h; exact absurd h (by simp)
+    · rintro ⟨h1, _⟩; omega
+  · simp only [Bool.false_eq_true, if_false]
+    constructor
+    · intro h; exact ⟨by omega, h⟩
+    · rintro ⟨_, h⟩; exact h
+
 theorem borders_spec (r : Region) (rest : List Region) (prevEnd : Nat) :
-    bordersOk (r :: rest) prevEnd = true ↔ (r.start < r.stop ∧ prevEnd ≤ r.start ∧ bordersOk rest r.stop = true) := by
+    bordersOk (r :: rest) (some prevEnd) = true ↔
+      (r.start ≤ r.stop ∧ prevEnd < r.start ∧ bordersOk rest (some r.stop) = true) := by
   simp only [bordersOk]
   split
   · constructor
     · intro h; exact absurd h (by simp)
     · rintro ⟨h1, _, _⟩; omega
-  · split
-    · constructor
+  · by_cases hp : r.start ≤ prevEnd
+    · simp only [hp, decide_true, if_true]
+      constructor
       · intro h; exact absurd h (by simp)
       · rintro ⟨_, h2, _⟩; omega
-    · constructor
+    · simp only [hp, decide_false, Bool.false_eq_true, if_false]
+      constructor
       · intro h; exact ⟨by omega, by omega, h⟩
       · rintro ⟨_, _, h3⟩; exact h3
 
@@ -131,8 +153,10 @@ theorem clamp_unobservable (gs : List Region) (s : Nat) (hs : s < 2 ^ 31 - 1) :
     congr 1
 
 /-- non-vacuity: a valid three-region table and its two gaps -/
-example : validRegs [⟨0, 2⟩, ⟨5, 7⟩, ⟨7, 9⟩] = true ∧ gaps [⟨0, 2⟩, ⟨5, 7⟩, ⟨7, 9⟩] = [⟨2, 5⟩, ⟨7, 7⟩] ∧
-    inGap (gaps [⟨0, 2⟩, ⟨5, 7⟩, ⟨7, 9⟩]) 4 = true ∧ inGap (gaps [⟨0, 2⟩, ⟨5, 7⟩, ⟨7, 9⟩]) 7 = false := by decide
+example : validRegs [⟨0, 2⟩, ⟨5, 7⟩, ⟨8, 9⟩] = true ∧ gaps [⟨0, 2⟩, ⟨5, 7⟩, ⟨8, 9⟩] = [⟨3, 5⟩, ⟨8, 8⟩] ∧
+    inGap (gaps [⟨0, 2⟩, ⟨5, 7⟩, ⟨8, 9⟩]) 4 = true ∧ inGap (gaps [⟨0, 2⟩, ⟨5, 7⟩, ⟨8, 9⟩]) 2 = false ∧
+    inGap (gaps [⟨0, 2⟩, ⟨5, 7⟩, ⟨8, 9⟩]) 7 = false ∧
+    validRegs [⟨0, 2⟩, ⟨2, 9⟩] = false ∧ validRegs [⟨0, 0⟩, ⟨1, 1⟩] = true := by decide
 
 /-! ### the table as written by a dumper is the table read -/
 
